@@ -75,21 +75,23 @@ func execute(t *testing.T, prop, tier string, c *Chooser) (res *RunResult) {
 }
 
 type outLine struct {
-	T       string         `json:"t"`
-	Index   int            `json:"i"`
-	Seed    uint64         `json:"seed"`
-	FP      string         `json:"fp,omitempty"`
-	Evals   int            `json:"evals,omitempty"`
-	Steps   int            `json:"steps,omitempty"`
-	NonTriv bool           `json:"nontrivial,omitempty"`
-	Stats   map[string]int `json:"stats,omitempty"`
-	States  []string       `json:"states,omitempty"`
-	Sample  map[string]any `json:"sample,omitempty"`
-	Viol    *Violation     `json:"violation,omitempty"`
-	Replay  string         `json:"replay,omitempty"`
-	Msg     string         `json:"msg,omitempty"`
-	Shrunk  string         `json:"shrunk,omitempty"`
-	Dups    int            `json:"rechecked,omitempty"`
+	T        string         `json:"t"`
+	Index    int            `json:"i"`
+	Seed     uint64         `json:"seed"`
+	FP       string         `json:"fp,omitempty"`
+	Evals    int            `json:"evals,omitempty"`
+	Steps    int            `json:"steps,omitempty"`
+	NonTriv  bool           `json:"nontrivial,omitempty"`
+	Distinct int            `json:"distinct,omitempty"`
+	Exh      bool           `json:"exhaustive,omitempty"`
+	Stats    map[string]int `json:"stats,omitempty"`
+	States   []string       `json:"states,omitempty"`
+	Sample   map[string]any `json:"sample,omitempty"`
+	Viol     *Violation     `json:"violation,omitempty"`
+	Replay   string         `json:"replay,omitempty"`
+	Msg      string         `json:"msg,omitempty"`
+	Shrunk   string         `json:"shrunk,omitempty"`
+	Dups     int            `json:"rechecked,omitempty"`
 }
 
 // ReplayFile is the on-disk reproduction of a violation (DESIGN Appendix B).
@@ -273,7 +275,7 @@ func WorkerMain(t *testing.T) {
 		}
 		sort.Strings(states)
 		line := outLine{T: "end", Index: idx, Seed: seed, FP: strconv.FormatUint(res.FP, 16), Evals: res.Evals, Steps: res.Steps,
-			NonTriv: res.NonTrivial, Stats: res.Stats, States: states}
+			NonTriv: res.NonTrivial, Distinct: res.Distinct, Exh: res.Exhaustive, Stats: res.Stats, States: states}
 		if n <= 3 || len(res.Violations) > 0 {
 			line.Sample = res.Sample
 		}
